@@ -144,6 +144,13 @@ def run_check(prop, tier, seed, replay=None):
             if not o["ok"]:
                 problems.append("theorem %s depends on disallowed axioms %s" % (o["name"], o["axioms"]))
     discharged = sum(1 for o in obligations if o["ok"]) if build_ok and not hy else 0
+    rechecked = None
+    if build_ok and tier == "thorough" and not replay:
+        # independent re-check of the compiled property module (and everything it imports from this project)
+        rcc, clog = core.sh(["lake", "env", "leanchecker", "Chain33Model.Props." + prop], cwd=core.LEAN, timeout=3600)
+        rechecked = (rcc == 0)
+        if rcc != 0:
+            problems.append("leanchecker rejected Chain33Model.Props.%s: %s" % (prop, clog[-800:]))
 
     # 3. Go build
     binary = None
@@ -256,6 +263,7 @@ def run_check(prop, tier, seed, replay=None):
         "known_findings_hit": hit_known,
         "stats": stats,
         "samples": samples or ["(no harness run)"],
+        "leanchecker_rechecked": rechecked,
         "repo": core.repo_fingerprint(),
         "problems": problems[:10],
     }
